@@ -7,6 +7,10 @@ import PyElf.Spec.DwarfStructs
 import PyElf.Model.Env
 import PyElf.Driver.C16
 import PyElf.Driver.Tie
+import PyElf.Driver.C14
+import PyElf.Driver.C20
+import PyElf.Driver.C13
+import PyElf.Driver.C06
 import PyElf.Driver.C12
 import PyElf.Driver.C01
 open Lean
@@ -58,6 +62,10 @@ def handle (req : Json) : Except String Json := do
   | "con" => handleCon req
   | "C16" => Driver.C16.handle req
   | "tie" => Driver.Tie.handle req
+  | "C14" => Driver.C14.handle req
+  | "C20" => Driver.C20.handle req
+  | "C13" => Driver.C13.handle req
+  | "C06" => Driver.C06.handle req
   | "C12" => Driver.C12.handle req
   | "C01" => Driver.C01.handle req
   | _ => throw s!"unknown property {p}"
